@@ -83,6 +83,12 @@ func keyOf(tc *go9p.Fcall) string {
 }
 
 func (c *Ctl) hook(point string, obj interface{}) {
+	if c.Perturb != nil && len(c.holds) == 0 && !c.Record {
+		// perturbation-only mode (C19): do not touch the object at all, the
+		// harness must not add memory accesses of its own
+		c.Perturb("", point)
+		return
+	}
 	who := Who(obj)
 	if c.Perturb != nil {
 		c.Perturb(who, point)
